@@ -83,6 +83,9 @@ type c12World struct {
 	vbs          []c12VB
 	inj          []c12Inj
 	gers         map[common.Hash]bool
+	// reverify: a verification of our rollup that an L1 reorg dropped (deposit count it covered); the next L1 block
+	// includes it again (the L2 chain has not changed), possibly behind other updates
+	reverify int
 
 	h http.Handler
 }
@@ -307,10 +310,36 @@ func (w *c12World) mineL1(seed uint64, gap int) {
 			BlockPosition: pos, MainnetExitRoot: mer, RollupExitRoot: rer, ParentHash: parent, Timestamp: ts}})
 		pos++
 	}
+	again := 0
+	if w.reverify > 0 {
+		// first something else (a deposit and, mostly, the bridge's push of its new exit root), then the verification
+		// that the reorg dropped
+		n, again = max(n, 3), 3
+	}
 	for i := 0; i < n; i++ {
 		k := r.Intn(100)
 		if len(w.depL1) == 0 && w.cfg["early_info"] == 0 && k >= 45 {
 			k = 0 // no info leaf before the first L1 deposit in this run
+		}
+		forcedC2 := -1
+		if again > 0 {
+			switch again {
+			case 3:
+				k = 0
+			case 2:
+				k = 50
+				if r.Bool(25) {
+					k = 0
+				}
+			case 1:
+				k = 80
+				if w.reverify >= w.lastC2() && w.reverify <= len(w.depL2) {
+					forcedC2 = w.reverify
+				}
+				w.reverify = 0
+				w.rec.Stats.Inc("verifications_included_again_after_an_l1_reorg")
+			}
+			again--
 		}
 		switch {
 		case k < 45: // L1 deposit
@@ -331,6 +360,9 @@ func (w *c12World) mineL1(seed uint64, gap int) {
 			c2 := len(w.depL2)
 			if r.Bool(40) {
 				c2 = r.Range(lo, len(w.depL2))
+			}
+			if forcedC2 >= 0 {
+				c2 = forcedC2
 			}
 			er := rootAt(&w.lTree, c2)
 			nb, sr, ag := r.U64()%100000, genHash(r), genAddr(r)
@@ -856,7 +888,20 @@ func RunC12(prop string, tr *Trace, sc *Script, rec *Recorder, scratch string) (
 		}
 		return []int64{int64(r.Intn(3)), net, int64(r.Intn(nd + 2)), int64(r.Intn(len(w.infos) + 2))}
 	}
+	// answers given just before a reorg are asked for again a few operations after it (whatever the node remembers
+	// from before the reorg must not leak into them)
+	afterReorg := 0
 	gen := func(r *Rand) (Op, bool) {
+		if afterReorg > 0 {
+			afterReorg--
+			if afterReorg == 0 {
+				return Op{K: "sweep", A: []int64{int64(r.U64() >> 1)}}, true
+			}
+			if afterReorg%2 == 1 {
+				// bring the stores forward so that the sweep sees the new fork
+				return Op{K: "sync", A: []int64{int64(r.Intn(4)), 100}}, true
+			}
+		}
 		weights := []int{int(cfg["w_l1"]), int(cfg["w_l2"]), int(cfg["w_sync"]), int(cfg["w_query"]), int(cfg["w_flow"]), int(cfg["w_sweep"]),
 			int(cfg["w_restart"]), int(cfg["w_reorg"]), int(cfg["w_fsync"]), int(cfg["w_qfault"]), int(cfg["w_iq"])}
 		if cfg["lockstep"] == 1 {
@@ -883,7 +928,12 @@ func RunC12(prop string, tr *Trace, sc *Script, rec *Recorder, scratch string) (
 		case 6:
 			return Op{K: "restart", A: []int64{int64(r.Intn(4))}}, true
 		case 7:
-			return Op{K: "reorg", A: []int64{int64(r.Intn(2)), int64(1 + r.Intn(3))}}, true
+			pre := int64(0)
+			if r.Bool(50) {
+				pre = 1
+				afterReorg = 2 * r.Range(2, 5)
+			}
+			return Op{K: "reorg", A: []int64{int64(r.Intn(2)), int64(1 + r.Intn(3)), pre, int64(r.U64() >> 1)}}, true
 		case 8:
 			return Op{K: "fsync", A: []int64{int64(r.Intn(4)), int64(r.Intn(4)), int64(1 + r.Intn(60))}}, true
 		case 9, 10:
@@ -1022,6 +1072,20 @@ func RunC12(prop string, tr *Trace, sc *Script, rec *Recorder, scratch string) (
 			if depth > n {
 				depth = n
 			}
+			if ch == 0 && op.Arg(2) == 1 {
+				// boundary bias: start the reorg exactly at the block of the newest verification of our rollup
+				for v := len(w.vbs) - 1; v >= 0; v-- {
+					if w.vbs[v].Rollup != w.netID {
+						continue
+					}
+					for dd := 1; dd <= 6 && dd <= n; dd++ {
+						if w.chain[a][n-dd].Num == w.vbs[v].Block {
+							depth = dd
+						}
+					}
+					break
+				}
+			}
 			// verified batches are final: an L2 reorg never drops deposits an L1 verification already covers
 			for depth > 0 && ch == 1 {
 				first := w.chain[a][n-depth].Num
@@ -1057,6 +1121,15 @@ func RunC12(prop string, tr *Trace, sc *Script, rec *Recorder, scratch string) (
 			if depth == 0 {
 				continue
 			}
+			if op.Arg(2) == 1 {
+				// every lookup is answered once right before the reorg
+				j := &c12Judge{w: w}
+				j.sweep(uint64(op.Arg(3)), 150)
+				if j.viol != nil {
+					return j.viol
+				}
+				rec.Stats.Inc("sweeps_right_before_a_reorg")
+			}
 			first := w.chain[a][n-depth].Num
 			for _, i := range []int{a, b} {
 				if w.done[i] > n-depth {
@@ -1067,6 +1140,14 @@ func RunC12(prop string, tr *Trace, sc *Script, rec *Recorder, scratch string) (
 					rec.Stats.Inc("store_reorgs")
 				}
 				w.chain[i] = w.chain[i][:n-depth]
+			}
+			if ch == 0 {
+				for v := len(w.vbs) - 1; v >= 0 && w.vbs[v].Block >= first; v-- {
+					if w.vbs[v].Rollup == w.netID && w.vbs[v].C2 > 0 {
+						w.reverify = w.vbs[v].C2
+						break
+					}
+				}
 			}
 			w.rewindRef(ch, first)
 			rec.Step(fmt.Sprintf("G%d.%d", ch, depth))
